@@ -279,12 +279,34 @@ def rule_optional_payload(ctx):
     funcs = [(om.fn, om.g, om.mf)] + [(c,) + tuple(om.an.get(c)[:2]) for c in om.closures()]
     bs = ctx.program.func("autobahn.wamp.protocol.BaseSession._exception_from_message")
     funcs.append((bs,) + tuple(om.an.get(bs)[:2]))
+    from .common import local_canon, canon_text
+
+    def _empty_default(e, what):
+        # `msg.args or ()` / `msg.kwargs or {}`: never None
+        return isinstance(e, ast.BoolOp) and isinstance(e.op, ast.Or) and len(e.values) == 2 and norm.text(e.values[0]) == what and \
+            ((isinstance(e.values[1], (ast.Tuple, ast.List)) and not e.values[1].elts) or (isinstance(e.values[1], ast.Dict) and not e.values[1].keys) or
+             (isinstance(e.values[1], ast.Call) and isinstance(e.values[1].func, ast.Name) and e.values[1].func.id in ("tuple", "list", "dict") and not e.values[1].args))
     for fn, g, mf in funcs:
+        cn = local_canon(fn)
         for n in g.stmt_nodes():
             facts = mf.at(n)
             if facts is None or n.ast is None:
                 continue
             exprs = []
+            # the payload unpacked through a local: `args = msg.args or ()` is safe, `args = msg.args` needs the same guard as msg.args itself
+            for x in ast.walk(n.ast) if not isinstance(n.ast, (ast.FunctionDef, ast.AsyncFunctionDef, ast.ClassDef)) else []:
+                val = x.value if isinstance(x, ast.Starred) else (x.value if isinstance(x, ast.keyword) and x.arg is None else None)
+                if isinstance(val, ast.Name) and val.id in cn:
+                    d = cn[val.id]
+                    for what in ("msg.args", "msg.kwargs"):
+                        if _empty_default(d, what):
+                            count += 1
+                            ctx.ob(f"{fn.name}: `{'*' if isinstance(x, ast.Starred) else '**'}{val.id}` (= {what} or empty) cannot be None [{stmt_key(n.ast)[:40]}]", True)
+                        elif norm.text(d) == what:
+                            count += 1
+                            ok = norm.is_truthy_known(facts, what) is True or norm.not_none_known(facts, what) or norm.is_truthy_known(facts, val.id) is True or norm.not_none_known(facts, val.id)
+                            ctx.ob(f"{fn.name}: `{'*' if isinstance(x, ast.Starred) else '**'}{val.id}` (= {what}) only under a guard that it is set [{stmt_key(n.ast)[:40]}]", ok,
+                                   f"{what} is Optional (None when the message carries none) but is unpacked unguarded through `{val.id}`: TypeError out of onMessage", fn.loc(x))
             from ..core.cfg import node_exprs
             for e in node_exprs(n):
                 for x in ([e] if isinstance(e, ast.AST) else []):
